@@ -298,6 +298,7 @@ static int drv_enum(vop_t *ops, int max)
     }
     { vop_t o = { 2, { 0 } }; ops[no++] = o; if (FAULTS) { o.a[0] = 1; ops[no++] = o; } }
     { vop_t o = { 8, { 1 } }; ops[no++] = o; }
+    if (PROBES) { vop_t o = { 8, { 0 } }; ops[no++] = o; }      /* the clear function may be NULL */
     if (SWAP) { vop_t o = { 9, { 0 } }; ops[no++] = o; }
     if (PROBES) { vop_t o = { 7, { 0 } }; ops[no++] = o; for (j = 1; j <= n && PROBES > 1; j++) { o.a[0] = j; ops[no++] = o; } }
     if (PROBES) { vop_t o = { 10, { 0 } }; ops[no++] = o; }
